@@ -360,6 +360,7 @@ def bang (s : Str) : Str := s ++ ['!']
 def mapBangEv (all : Bool) : MItem → MItem
   | (some m, .ev (.text t f)) => (some m, .ev (.text (bang t) f))
   | (some m, .ev (.comment t)) => if all then (some m, .ev (.comment (bang t))) else (some m, .ev (.comment t))
+  | (some m, .ev (.endNs p)) => if all then (some m, .ev (.endNs (bang p))) else (some m, .ev (.endNs p))   -- END_NS data is the prefix, a plain string
   | p => p
 
 def mapBang (all : Bool) (s : MStream) : MStream := s.map (mapBangEv all)
@@ -384,6 +385,17 @@ def substEv (pat rep : Str) (count : Nat) : MItem → MItem
   | p => p
 
 def substitute (pat rep : Str) (count : Nat) (s : MStream) : MStream := s.map (substEv pat rep count)
+
+/-- `MapTransformation(function, TEXT)` for ANY function on the data of a TEXT event (text and
+    whether it is a `Markup` instance) -/
+def mapTextEv (f : Str → Bool → Str × Bool) : MItem → MItem
+  | (some m, .ev (.text t sf)) => (some m, .ev (.text (f t sf).1 (f t sf).2))
+  | p => p
+
+def mapText (f : Str → Bool → Str × Bool) (s : MStream) : MStream := s.map (mapTextEv f)
+
+/-- `TraceTransformation`: prints every item it is given and yields it as it is -/
+def trace (s : MStream) : MStream := s
 
 /-- `FilterTransformation`: `queue` collects one selection, `flush` re-emits `f queue` marked
     OUTSIDE.  The event that ends an OUTSIDE run is yielded as it is (not pushed back). -/
@@ -436,6 +448,8 @@ inductive Op where
   | copy (id : Nat) (acc : Bool) | cut (id : Nat) (acc : Bool) | buffer
   | mapBang (all : Bool) | subst (pat rep : Str) (count : Nat)
   | filter (f : List MEv → List MEv)      -- any stream filter (as a function on event lists)
+  | mapText (f : Str → Bool → Str × Bool) -- `map(function, TEXT)` for any function
+  | trace
   deriving Inhabited
 
 abbrev Bufs := List (Nat × List MEv)
@@ -478,6 +492,8 @@ def applyOp (b : Bufs) : Op → MStream → Option (MStream × Bufs)
   | .mapBang all, s => some (mapBang all s, b)
   | .subst p r n, s => some (substitute p r n s, b)
   | .filter f, s => some (filterSel f s, b)
+  | .mapText f, s => some (mapText f s, b)
+  | .trace, s => some (trace s, b)
 
 def runChain : List Op → Bufs → MStream → Option (MStream × Bufs)
   | [], b, s => some (s, b)
@@ -507,5 +523,19 @@ def transformMarked (ops : List Op) (s : Stream) : Option (MStream × Bufs) :=
 /-- `Transformer.__call__(stream)` -/
 def transform (ops : List Op) (s : Stream) : Option Stream :=
   (transformMarked ops s).map fun r => unmark r.1
+
+/-! ### derivation: `Transformer.apply` -/
+
+/-- Every operation method (`remove()`, `rename()`, `copy()`, `select()`, …) goes through
+    `Transformer.apply`: it returns a NEW transformer whose chain is the chain of the one it was
+    called on plus one link.  `h` = the chains of all transformer objects built so far (transformers
+    are values: nothing else happens to `h`), `k` = the object the method is called on. -/
+def derive {α : Type} (h : List (List α)) (k : Nat) (x : α) : List (List α) :=
+  h ++ [h.getD k [] ++ [x]]
+
+/-- the chains of all objects after each derivation of a history -/
+def history {α : Type} : List (List α) → List (Nat × α) → List (List (List α))
+  | _, [] => []
+  | h, (k, x) :: ds => derive h k x :: history (derive h k x) ds
 
 end Genshi.Tf
